@@ -240,7 +240,7 @@ def o4(W, ob):
                  'send_sync_request is called from %s outside the Synchronizing state: sync_random_requests could grow in a running session' % short(f.path), where(f, t.line))
 
 
-from . import helpers
+from . import helpers, wiring
 
 from . import initial
 
@@ -253,5 +253,6 @@ OBLIGATIONS = [
      'the drain removes what it sends and follows the sent-cursor.', o3),
     ('C18.O4', 'sync_random_requests', 'nonces are created only while synchronizing (outside the property\'s synchronized session); listed.', o4),
     ('C18.H', 'helpers the rules above rely on', 'the bodies of the helpers named by this property\'s rules compute what the rules assume (next_complete); see rules/helpers.py', helpers.bundle('next_complete')),
+    ('C18.W', 'endpoint construction wiring', 'cap-then-disconnect bounds pending_output only if the session can stop the endpoint that reported Disconnected, which it does per handle of that endpoint: the handle list the builder collected for an address reaches UdpProtocol::new whole (no element-dropping operation on a collection forwarded under its own name), and no configuration wire is crossed; see rules/wiring.py', wiring.rule),
     ('C18.I', 'initial state', 'every constructor gives the fields this property\'s rules interpret (NULL_FRAME = none / nothing yet, 0 = first frame, latches open, typestate start) the value listed in tables/initial_state.json; every field compared with NULL_FRAME anywhere is listed; see rules/initial.py', initial.rule_for('C18')),
 ]
